@@ -419,6 +419,31 @@ func discharge(m *Machine, h HarnessSpec, rep *HarnessReport, overlay map[string
 	}
 	close(ch)
 	wg.Wait()
+	// second chance for undecided obligations: one at a time, fresh solver process, three times the budget (a loaded
+	// machine or an unlucky heuristic must not turn into an inconclusive run when the query is decidable)
+	for i, o := range obls {
+		v := results[i].verdict
+		if v == "sat" || v == "unsat" || (o.vacuity && len(o.pc) == 0) {
+			continue
+		}
+		sc, _, used := m.script(o, !o.vacuity)
+		var want []string
+		if !o.vacuity {
+			for _, n := range nondetNames {
+				if used[n] {
+					want = append(want, n)
+				}
+			}
+		}
+		z := startSolver(solverFor(m), 3*to)
+		tq := time.Now()
+		v2, mod2 := z.query(sc, want)
+		z.close()
+		rep.Retried++
+		if v2 == "unsat" || (v2 == "sat" && !(m.intMode && len(m.prods) > 0)) {
+			results[i] = res{verdict: v2, model: mod2, secs: results[i].secs + time.Since(tq).Seconds(), bytes: len(sc)}
+		}
+	}
 	rep.SolveS = time.Since(t0).Seconds()
 	expectSat := map[string]bool{}
 	for _, e := range h.ExpectSat {
